@@ -55,6 +55,10 @@ struct KindBase {
   static constexpr bool hasIndex = false;     // it.index() offered
   static constexpr bool showIdx = false;      // positions are printed as p#index
   static constexpr bool keepsType = true;     // it+n / it-n return the same iterator type
+  static constexpr bool hasConv = false;      // the mutable iterator converts to the const iterator
+  static constexpr bool hasBeforeEnd = false; // container offers beforeEnd()
+  static constexpr bool hasFind = false;      // container offers find(i)
+  static constexpr bool arrowOk = true;       // it.operator->() can be instantiated
   long idxStart = 0;
 };
 
@@ -63,9 +67,16 @@ struct DenseVecKind : KindBase {
   static constexpr int cat = 2;
   static constexpr bool beforeBegin = true;
   static constexpr bool hasIndex = true;
+  static constexpr bool hasConv = true;
+  static constexpr bool hasBeforeEnd = true;
+  static constexpr bool hasFind = true;
   V v;
   Vals vals;
   explicit DenseVecKind(const Vals& x) : v(mk(x)), vals(x) {}
+  auto mbeforeEnd() { return v.beforeEnd(); }
+  auto cbeforeEnd() { return std::as_const(v).beforeEnd(); }
+  auto mfind(long i) { return v.find((std::size_t)i); }
+  auto cfind(long i) { return std::as_const(v).find((std::size_t)i); }
   static V mk(const Vals& x) {
     if constexpr (std::is_constructible_v<V, std::size_t>&& !std::is_convertible_v<std::size_t, V>) {
       V r(x.size());
@@ -93,9 +104,13 @@ struct DenseMatKind : KindBase {
   static constexpr int cat = 2;
   static constexpr bool beforeBegin = true;
   static constexpr bool hasIndex = true;
+  static constexpr bool hasConv = true;
+  static constexpr bool hasBeforeEnd = true;
   M m;
   Vals vals;
   explicit DenseMatKind(const Vals& x) : m(mk(x)), vals(x) {}
+  auto mbeforeEnd() { return m.beforeEnd(); }
+  auto cbeforeEnd() { return std::as_const(m).beforeEnd(); }
   static M mk(const Vals& x) {
     if constexpr (std::is_constructible_v<M, int, int>) {
       M r(x.size(), 2);
@@ -125,8 +140,13 @@ struct DiagKind : KindBase {  // row iterator of DiagonalMatrix (BidirectionalIt
   static constexpr int cat = 1;
   static constexpr bool beforeBegin = true;
   static constexpr bool hasIndex = true;
+  static constexpr bool hasConv = true;
+  static constexpr bool hasBeforeEnd = true;
+  static constexpr bool arrowOk = false;  // the row reference is a proxy object; operator-> would take the address of a temporary
   Dune::DiagonalMatrix<long, N> d;
   Vals vals;
+  auto mbeforeEnd() { return d.beforeEnd(); }
+  auto cbeforeEnd() { return std::as_const(d).beforeEnd(); }
   explicit DiagKind(const Vals& x) : vals(x) {
     for (int i = 0; i < N; ++i) d.diagonal(i) = x[i];
   }
@@ -143,10 +163,11 @@ struct DiagKind : KindBase {  // row iterator of DiagonalMatrix (BidirectionalIt
   long expect(long i) const { return vals[i]; }
 };
 
-template <int N>
+template <int N, bool PURGE = false>
 struct ArrayListKind : KindBase {
   static constexpr int cat = 2;
   static constexpr bool mixedRel = false;
+  static constexpr bool hasConv = true;
   Dune::ArrayList<long, N> l;
   Vals vals;
   ArrayListKind(const Vals& x, long erased) : vals(x) {
@@ -157,6 +178,7 @@ struct ArrayListKind : KindBase {
       it += erased - 1;
       it.eraseToHere();
     }
+    if (PURGE) l.purge();  // moves the chunks to the front and rebases start_: iterators made afterwards must agree
   }
   auto mbegin() { return l.begin(); }
   auto mend() { return l.end(); }
@@ -169,24 +191,32 @@ struct ArrayListKind : KindBase {
   long expect(long i) const { return vals[i]; }
 };
 
-template <bool modify>
+// MODE 0: iterator / const_iterator, 1: ModifyIterator / const_iterator, 2: ModifyIterator / iterator
+template <int MODE>
 struct SLListKind : KindBase {
   static constexpr int cat = 0;
+  static constexpr bool hasConv = true;
   Dune::SLList<long> l;
   Vals vals;
   explicit SLListKind(const Vals& x) : vals(x) {
     for (long y : x) l.push_back(y);
   }
   auto mbegin() {
-    if constexpr (modify) return l.beginModify();
+    if constexpr (MODE >= 1) return l.beginModify();
     else return l.begin();
   }
   auto mend() {
-    if constexpr (modify) return l.endModify();
+    if constexpr (MODE >= 1) return l.endModify();
     else return l.end();
   }
-  auto cbegin() { return std::as_const(l).begin(); }
-  auto cend() { return std::as_const(l).end(); }
+  auto cbegin() {
+    if constexpr (MODE == 2) return l.begin();
+    else return std::as_const(l).begin();
+  }
+  auto cend() {
+    if constexpr (MODE == 2) return l.end();
+    else return std::as_const(l).end();
+  }
   auto mbefore() { return mbegin(); }
   auto cbefore() { return cbegin(); }
   template <class R> static long val(const R& r) { return r; }
@@ -206,6 +236,7 @@ struct GCont {
 template <template <class, class, class, class> class Facade, int CAT>
 struct GenericKind : KindBase {
   static constexpr int cat = CAT;
+  static constexpr bool hasConv = true;
   static constexpr bool beforeBegin = true;  // positions are plain ptrdiff_t, (cont,-1) is constructible
   Vals vals;
   GCont<Facade> c;
@@ -252,6 +283,7 @@ class OWIt : public Facade<OWIt<isConst, Facade>, std::conditional_t<isConst, co
 template <template <class, class, class, class> class Facade, int CAT>
 struct OneWayKind : KindBase {
   static constexpr int cat = CAT;
+  static constexpr bool hasConv = true;
   static constexpr bool beforeBegin = true;
   Vals vals;
   explicit OneWayKind(const Vals& x) : vals(x) {}
@@ -291,21 +323,34 @@ struct IndexedKind : KindBase {  // IndexedIterator over a std:: container's ite
   long expect(long i) const { return vals[i]; }
 };
 
-template <class T>
+// HIGH: the op line gives bounds/values of an IntegralRange<unsigned long> relative to 2^63 (an order preserving
+// bijection between the unsigned 64 bit values and `long`), so ranges above and across 2^63 can be written down
+template <class T, bool HIGH>
+struct IRConv {
+  static T to(long x) {
+    if constexpr (HIGH) return (T)((unsigned long)x + (1ul << 63));
+    else return (T)x;
+  }
+  static long from(T v) {
+    if constexpr (HIGH) return (long)((unsigned long)v - (1ul << 63));
+    else return (long)v;
+  }
+};
+template <class T, bool HIGH = false>
 struct IntRangeKind : KindBase {  // hand-written IntegralRangeIterator
   static constexpr int cat = 2;
   static constexpr bool nplus = true;
   Dune::IntegralRange<T> r;
   long from, to;
   Vals vals;  // only its size matters
-  IntRangeKind(long f, long t) : r((T)f, (T)t), from(f), to(t), vals((std::size_t)(t - f), 0) {}
+  IntRangeKind(long f, long t) : r(IRConv<T, HIGH>::to(f), IRConv<T, HIGH>::to(t)), from(f), to(t), vals((std::size_t)(t - f), 0) {}
   auto mbegin() { return r.begin(); }
   auto mend() { return r.end(); }
   auto cbegin() { return std::as_const(r).begin(); }
   auto cend() { return std::as_const(r).end(); }
   auto mbefore() { return mbegin(); }
   auto cbefore() { return cbegin(); }
-  template <class R> static long val(const R& x) { return (long)x; }
+  template <class R> static long val(const R& x) { return IRConv<T, HIGH>::from((T)x); }
   template <class R> std::string chk(const R&, long) { return ""; }
   long expect(long i) const { return from + i; }
 };
@@ -382,6 +427,93 @@ struct SparseKind : KindBase {  // sparseRange over a DynamicVector: (entry, ind
   long expect(long i) const { return vals[i]; }
 };
 
+// TransformedRangeIterator used directly with a function OBJECT (the views hand it a pointer to the function):
+// the `f(*it)` branch of TransformationRangeIteratorTraits::transform
+struct TransformedFunKind : KindBase {
+  static constexpr int cat = 2;
+  static constexpr bool nplus = true;
+  std::vector<long> c;
+  Vals vals;
+  std::vector<long> log;
+  using MI = Dune::Impl::TransformedRangeIterator<std::vector<long>::iterator, LogF, Dune::ValueTransformationTag>;
+  using CI = Dune::Impl::TransformedRangeIterator<std::vector<long>::const_iterator, LogF, Dune::ValueTransformationTag>;
+  using View = Dune::IteratorRange<MI>;
+  View view;
+  explicit TransformedFunKind(const Vals& x) : c(x.begin(), x.end()), vals(x), view(MI(c.begin(), LogF{&log}), MI(c.end(), LogF{&log})) {}
+  MI mbegin() { return MI(c.begin(), LogF{&log}); }
+  MI mend() { return MI(c.end(), LogF{&log}); }
+  CI cbegin() { return CI(std::as_const(c).begin(), LogF{&log}); }
+  CI cend() { return CI(std::as_const(c).end(), LogF{&log}); }
+  auto mbefore() { return mbegin(); }
+  auto cbefore() { return cbegin(); }
+  template <class R> static long val(const R& r) { return r; }
+  template <class R> std::string chk(const R&, long) { return ""; }
+  long expect(long i) const { return 3 * vals[i] + 1; }
+};
+
+// an iterator built on the new IteratorFacade WITHOUT a base iterator: it implements only *, +=, == and -, so the
+// facade's operator++ / operator-- take their second branch (derived() += 1, derived() -= 1)
+template <bool isConst>
+class AdvIt : public Dune::IteratorFacade<AdvIt<isConst>, std::random_access_iterator_tag, long,
+                                          std::conditional_t<isConst, const long&, long&>,
+                                          std::conditional_t<isConst, const long*, long*>, std::ptrdiff_t> {
+  using Facade = Dune::IteratorFacade<AdvIt<isConst>, std::random_access_iterator_tag, long,
+                                      std::conditional_t<isConst, const long&, long&>,
+                                      std::conditional_t<isConst, const long*, long*>, std::ptrdiff_t>;
+  friend class AdvIt<!isConst>;
+  std::conditional_t<isConst, const Vals, Vals>* c_ = nullptr;
+  std::ptrdiff_t p_ = 0;
+
+ public:
+  using reference = std::conditional_t<isConst, const long&, long&>;
+  AdvIt() = default;
+  AdvIt(std::conditional_t<isConst, const Vals, Vals>& c, std::ptrdiff_t p) : c_(&c), p_(p) {}
+  reference operator*() const { return (*c_)[p_]; }
+  AdvIt& operator+=(std::ptrdiff_t n) { p_ += n; return *this; }
+  using Facade::operator-;
+  template <bool o> bool operator==(const AdvIt<o>& other) const { return p_ == other.p_ && (const Vals*)c_ == (const Vals*)other.c_; }
+  template <bool o> std::ptrdiff_t operator-(const AdvIt<o>& other) const { return p_ - other.p_; }
+};
+struct AdvOnlyKind : KindBase {
+  static constexpr int cat = 2;
+  static constexpr bool nplus = true;
+  Vals vals;
+  explicit AdvOnlyKind(const Vals& x) : vals(x) {}
+  using MI = AdvIt<false>;
+  using CI = AdvIt<true>;
+  MI mbegin() { return MI(vals, 0); }
+  MI mend() { return MI(vals, (std::ptrdiff_t)vals.size()); }
+  CI cbegin() { return CI(vals, 0); }
+  CI cend() { return CI(vals, (std::ptrdiff_t)vals.size()); }
+  MI mbefore() { return mbegin(); }
+  CI cbefore() { return cbegin(); }
+  template <class R> static long val(const R& r) { return r; }
+  template <class R> std::string chk(const R&, long) { return ""; }
+  long expect(long i) const { return vals[i]; }
+};
+
+// IndexedIterator over the library's own DenseIterator
+struct IndexedDenseKind : KindBase {
+  static constexpr int cat = 2;
+  static constexpr bool hasIndex = true;
+  static constexpr bool showIdx = true;
+  static constexpr bool keepsType = false;
+  Dune::DynamicVector<long> v;
+  Vals vals;
+  IndexedDenseKind(const Vals& x, long start) : v(DenseVecKind<Dune::DynamicVector<long>>::mk(x)), vals(x) { idxStart = start; }
+  using MI = Dune::IndexedIterator<Dune::DynamicVector<long>::Iterator>;
+  using CI = Dune::IndexedIterator<Dune::DynamicVector<long>::ConstIterator>;
+  MI mbegin() { return MI(v.begin(), idxStart); }
+  MI mend() { return MI(v.end(), idxStart + (long)vals.size()); }
+  CI cbegin() { return CI(std::as_const(v).begin(), idxStart); }
+  CI cend() { return CI(std::as_const(v).end(), idxStart + (long)vals.size()); }
+  MI mbefore() { return mbegin(); }
+  CI cbefore() { return cbegin(); }
+  template <class R> static long val(const R& r) { return r; }
+  template <class R> std::string chk(const R&, long) { return ""; }
+  long expect(long i) const { return vals[i]; }
+};
+
 // ------------------------------------------------------------------------------------------------
 // type-erased iterator handle: the law checks below are written once against this interface, every
 // kind only instantiates the thin wrapper W (keeps the compile time of the harness bounded)
@@ -408,6 +540,8 @@ struct AnyIt {
   virtual long at(long n) const = 0;
   virtual long deref() const = 0;
   virtual std::string chk(long i) const = 0;
+  virtual std::string arrow() const = 0;  // "" or what is wrong with it.operator->()
+  virtual P toConst() const = 0;          // the const iterator this (mutable) iterator converts to; null = not offered
   virtual long index() const = 0;
   virtual int cmp(int rel, const AnyIt& rhs) const = 0;    // 0/1, -1 = not offered
   virtual bool diff(const AnyIt& rhs, long& out) const = 0;  // false = not offered
@@ -467,6 +601,30 @@ struct W final : AnyIt {
   }
   long deref() const override { return a->val(*it); }
   std::string chk(long i) const override { return a->chk(*it, i); }
+  std::string arrow() const override {
+    if constexpr (A::arrowOk) {
+      auto p = it.operator->();
+      if constexpr (std::is_pointer_v<decltype(p)>) {
+        if (a->val(*p) != a->val(*it)) return "it.operator->() does not point to the value of *it";
+        if constexpr (std::is_lvalue_reference_v<decltype(*it)>) {
+          if ((const void*)p != (const void*)&*it) return "it.operator->() is not the address of *it";
+        }
+      } else {
+        auto q = p.operator->();
+        if (a->val(*q) != a->val(*it)) return "the proxy returned by it.operator->() does not hold the value of *it";
+      }
+    }
+    return "";
+  }
+  static constexpr bool itIsMutable = std::is_same_v<It, decltype(std::declval<A&>().mbegin())>;
+  P toConst() const override {
+    if constexpr (A::hasConv && itIsMutable && !std::is_same_v<It, Oth>) {
+      Oth o = it;  // converting constructor mutable -> const
+      Oth o2(it);
+      if (!(o == o2)) return nullptr;
+      return P(new W<A, Oth, It>(a, o, true));
+    } else return nullptr;
+  }
   long index() const override {
     if constexpr (A::hasIndex) return (long)it.index();
     else return 0;
@@ -514,6 +672,9 @@ struct Tab {
   bool nplus = false, hasIndex = false, showIdx = false, mixedRel = true;
   long idxStart = 0;
   std::function<long(long)> expect;
+  bool hasConv = false, hasBeforeEnd = false, hasFind = false, keepsType = true;
+  std::function<P(bool)> beforeEnd;      // (const?) -> iterator returned by beforeEnd()
+  std::function<P(bool, long)> find;     // (const?, i) -> iterator returned by find(i)
   AnyIt& M(long p) { return *m[p - lo]; }
   AnyIt& C(long p) { return *c[p - lo]; }
 };
@@ -528,6 +689,17 @@ Tab makeTab(A& a) {
   T.cat = A::cat; T.nplus = A::nplus; T.hasIndex = A::hasIndex; T.showIdx = A::showIdx; T.mixedRel = A::mixedRel;
   T.idxStart = a.idxStart;
   T.expect = [&a](long i) { return a.expect(i); };
+  T.hasConv = A::hasConv; T.hasBeforeEnd = A::hasBeforeEnd; T.hasFind = A::hasFind; T.keepsType = A::keepsType;
+  if constexpr (A::hasBeforeEnd)
+    T.beforeEnd = [&a](bool c) -> P {
+      if (c) return P(new W<A, CI, MI>(&a, a.cbeforeEnd(), true));
+      return P(new W<A, MI, CI>(&a, a.mbeforeEnd(), false));
+    };
+  if constexpr (A::hasFind)
+    T.find = [&a](bool c, long i) -> P {
+      if (c) return P(new W<A, CI, MI>(&a, a.cfind(i), true));
+      return P(new W<A, MI, CI>(&a, a.mfind(i), false));
+    };
   if constexpr (A::beforeBegin) {
     T.m.emplace_back(new W<A, MI, CI>(&a, a.mbefore(), false));
     T.c.emplace_back(new W<A, CI, MI>(&a, a.cbefore(), true));
@@ -640,7 +812,8 @@ static Result execIt(Tab& T, const std::vector<std::string>& w, size_t k) {
     arg.push_back(std::stol(w[i]));
   }
   for (char ch : cv) if (ch != 'm' && ch != 'c') return badOp();
-  static const std::vector<std::string> un1 = {"preinc", "postinc", "predec", "postdec", "incdec", "decinc", "deref", "index"};
+  static const std::vector<std::string> un1 = {"preinc", "postinc", "predec", "postdec", "incdec", "decinc", "deref", "index",
+                                               "conv", "beforeend", "find"};
   static const std::vector<std::string> un2 = {"addeq", "subeq", "plus", "minus", "nplus", "steps", "at"};
   static const std::vector<std::string> bin = {"eq", "ne", "lt", "le", "gt", "ge", "diff"};
   auto in = [&](const std::vector<std::string>& v) { return std::find(v.begin(), v.end(), op) != v.end(); };
@@ -651,6 +824,14 @@ static Result execIt(Tab& T, const std::vector<std::string>& w, size_t k) {
   checkTab(T, err);
   const long n = T.n, lo = T.lo;
   const long p = arg[0];
+  if (op == "find") {  // find(i): the iterator min(i,size) increments behind begin()
+    if (!T.hasFind || p < 0 || p > n + 4) return badOp();
+    P it = T.find(cv[0] == 'c', p);
+    res.impl = showPos(T, *it, err, std::min(p, n));
+    stat("op_find");
+    if (!err.empty()) res.oracle = "FAIL " + err;
+    return res;
+  }
   if (p < lo || p > n) return badOp();
   auto get = [&](char c, long pos) { return (c == 'm' ? T.M(pos) : T.C(pos)).clone(); };
 
@@ -692,7 +873,24 @@ static Result execIt(Tab& T, const std::vector<std::string>& w, size_t k) {
       if (v != T.expect(p)) note(err, "*it yields " + S(v) + " at position " + S(p));
       std::string c2 = it->chk(p);
       if (!c2.empty()) note(err, c2);
+      std::string c3 = it->arrow();
+      if (!c3.empty()) note(err, c3);
       res.impl = S(v);
+    } else if (op == "conv") {  // mutable -> const conversion keeps the position
+      if (!T.hasConv || cv != "m") return badOp();
+      P c = it->toConst();
+      if (!c) { note(err, "conversion to the const iterator is inconsistent"); res.impl = "?"; }
+      else {
+        res.impl = showPos(T, *c, err, p);
+        if (p >= 0 && p < n && c->deref() != T.expect(p)) note(err, "converted iterator yields " + S(c->deref()));
+        if (c->cmp(EQ, *it) != 1 || it->cmp(NE, *c) != 0) note(err, "converted iterator does not compare equal to its origin");
+      }
+    } else if (op == "beforeend") {  // beforeEnd() is one decrement before end()
+      if (!T.hasBeforeEnd || p != n) return badOp();
+      P b = T.beforeEnd(cv[0] == 'c');
+      res.impl = showPos(T, *b, err, n - 1);
+      P e = get(cv[0], n);
+      if (T.cat >= 1 && n - 1 >= lo) { e->predec(); if (e->cmp(EQ, *b) != 1) note(err, "beforeEnd() differs from --end()"); }
     } else {  // index
       if (!T.hasIndex) return badOp();
       long ix = it->index();
@@ -763,6 +961,83 @@ static Result execIt(Tab& T, const std::vector<std::string>& w, size_t k) {
   stat("cv_" + cv);
   if (p == lo) stat("pos_first");
   if (p == n) stat("pos_end");
+  if (!err.empty()) res.oracle = "FAIL " + err;
+  return res;
+}
+
+// ------------------------------------------------------------------------------------------------
+// an operation history on ONE iterator object:  it <kind> <spec> hist <p> <cv> : s1;s2;...
+//   i  ++it     d  --it     I  it++     D  it--     a<n>  it += n     s<n>  it -= n
+//   p<n>  it = it + n      m<n>  it = it - n      n<n>  it = n + it
+// answer: the position (and index) of the iterator after every step
+// ------------------------------------------------------------------------------------------------
+static Result execHist(Tab& T, const std::vector<std::string>& w) {
+  Result res;
+  std::string err;
+  if (w.size() != 8 || w[6] != ":" || !isInt(w[4])) return badOp();
+  const std::string cv = w[5];
+  if (cv != "m" && cv != "c") return badOp();
+  long p = std::stol(w[4]);
+  const long n = T.n, lo = T.lo;
+  if (p < lo || p > n) return badOp();
+  std::vector<std::string> toks = split(w[7], ';');
+  if (toks.size() > 40) return badOp();
+  struct St { char k; long n; };
+  std::vector<St> sts;
+  for (auto& t : toks) {
+    if (t.empty()) return badOp();
+    char k = t[0];
+    if (t.size() == 1) {
+      if (k != 'i' && k != 'd' && k != 'I' && k != 'D') return badOp();
+      sts.push_back({k, 0});
+    } else {
+      if (k != 'a' && k != 's' && k != 'p' && k != 'm' && k != 'n') return badOp();
+      std::string num = t.substr(1);
+      if (!isInt(num)) return badOp();
+      long v = std::stol(num);
+      if (v < -64 || v > 64) return badOp();
+      sts.push_back({k, v});
+    }
+  }
+  // validate the whole history on integer positions first (the executor must not leave [lo, n])
+  {
+    long q = p;
+    for (auto& st : sts) {
+      switch (st.k) {
+        case 'i': case 'I': q += 1; break;
+        case 'd': case 'D': if (T.cat < 1) return badOp(); q -= 1; break;
+        case 'a': if (T.cat < 2) return badOp(); q += st.n; break;
+        case 's': if (T.cat < 2) return badOp(); q -= st.n; break;
+        case 'p': if (T.cat < 2 || !T.keepsType) return badOp(); q += st.n; break;
+        case 'm': if (T.cat < 2 || !T.keepsType) return badOp(); q -= st.n; break;
+        case 'n': if (T.cat < 2 || !T.keepsType || !T.nplus) return badOp(); q += st.n; break;
+      }
+      if (q < lo || q > n) return badOp();
+    }
+  }
+  checkTab(T, err);
+  P it = (cv == "m" ? T.M(p) : T.C(p)).clone();
+  if (!it->fitsDiff(64) || !it->fitsDiff(-64)) return badOp();
+  std::vector<std::string> out;
+  long q = p;
+  for (auto& st : sts) {
+    switch (st.k) {
+      case 'i': it->preinc(); q += 1; break;
+      case 'd': it->predec(); q -= 1; break;
+      case 'I': { P r = it->postinc(); showPos(T, *r, err, q); q += 1; break; }
+      case 'D': { P r = it->postdec(); showPos(T, *r, err, q); q -= 1; break; }
+      case 'a': it->addeq(st.n); q += st.n; break;
+      case 's': it->subeq(st.n); q -= st.n; break;
+      case 'p': it = it->plus(st.n); q += st.n; break;
+      case 'm': it = it->minus(st.n); q -= st.n; break;
+      case 'n': it = it->nplus(st.n); q += st.n; break;
+    }
+    out.push_back(showPos(T, *it, err, q));
+    if (q >= 0 && q < n && it->deref() != T.expect(q)) note(err, "after the history *it yields " + S(it->deref()) + " at position " + S(q));
+  }
+  res.impl = "[" + join(out.begin(), out.end(), ",") + "]";
+  stat("op_hist");
+  stat("hist_len_" + S((long)sts.size() > 8 ? 9 : (long)sts.size()));
   if (!err.empty()) res.oracle = "FAIL " + err;
   return res;
 }
@@ -877,13 +1152,22 @@ template <class T> struct TypeLimits {
   }
 };
 
-template <class T>
+template <class T, bool HIGH = false>
 Result execIntegralRange(const std::string& op, long f, long t, const std::vector<long>& arg) {
+  using CV = IRConv<T, HIGH>;
   Result res;
   std::string err;
-  Dune::IntegralRange<T> r((T)f, (T)t);
+  Dune::IntegralRange<T> r(CV::to(f), CV::to(t));
   stat("op_rg_" + op);
   if (f == t) stat("range_empty");
+  auto enumerate = [&](auto&& range, Vals& out) {
+    for (auto v : range) {
+      out.push_back(CV::from((T)v));
+      if ((long)out.size() > t - f) { note(err, "range yields more than to-from values"); break; }
+    }
+  };
+  Vals expect;
+  if (t - f <= 4096) for (long v = f; v < t; ++v) expect.push_back(v);
   if (op == "size") {
     auto s = r.size();
     res.impl = std::to_string((unsigned long)s);
@@ -893,26 +1177,42 @@ Result execIntegralRange(const std::string& op, long f, long t, const std::vecto
     if (r.empty() != (f == t)) note(err, "empty() is " + res.impl);
   } else if (op == "contains") {
     long x = arg.at(0);
-    if (!TypeLimits<T>::fits(x, x)) return badOp();
-    bool got = r.contains((T)x);
+    if (!HIGH && !TypeLimits<T>::fits(x, x)) return badOp();
+    bool got = r.contains(CV::to(x));
     res.impl = got ? "true" : "false";
     if (got != (f <= x && x < t)) note(err, "contains(" + std::to_string(x) + ") is " + res.impl);
   } else if (op == "at") {
     long i = arg.at(0);
     if (i < 0 || i >= t - f) return badOp();
-    long got = (long)r[(T)i];
+    long got = CV::from(r[(T)i]);
     res.impl = std::to_string(got);
     if (got != f + i) note(err, "range[i] is " + res.impl);
   } else if (op == "enum") {
     if (t - f > 4096) return badOp();
-    Vals out, expect;
-    for (auto v : r) {
-      out.push_back((long)v);
-      if ((long)out.size() > t - f) { note(err, "range yields more than to-from values"); break; }
-    }
-    for (long v = f; v < t; ++v) expect.push_back(v);
+    Vals out;
+    enumerate(r, out);
     if (out != expect) note(err, "range enumerates " + listStr(out) + ", expected " + listStr(expect));
+    // what the standard library makes of the iterators (std::distance and the iterator-pair constructor use operator-)
+    if (std::distance(r.begin(), r.end()) != (std::ptrdiff_t)(t - f)) note(err, "std::distance(begin(), end()) is not to-from");
+    std::vector<T> copy(r.begin(), r.end());
+    if (copy.size() != expect.size()) note(err, "std::vector(begin(), end()) has " + std::to_string(copy.size()) + " entries");
     res.impl = listStr(out);
+  } else if (op == "enum_to") {  // Dune::range(to), IntegralRange<T>(to): the range starts at 0
+    if (HIGH || f != 0 || t - f > 4096) return badOp();
+    Vals o1, o2;
+    enumerate(Dune::range((T)t), o1);
+    enumerate(Dune::IntegralRange<T>((T)t), o2);
+    if (o1 != expect) note(err, "range(to) enumerates " + listStr(o1) + ", expected " + listStr(expect));
+    if (o2 != o1) note(err, "IntegralRange(to) enumerates " + listStr(o2));
+    res.impl = listStr(o1);
+  } else if (op == "enum_pair") {  // IntegralRange<T>(std::pair(from, to)), Dune::range(from, to)
+    if (HIGH || t - f > 4096) return badOp();
+    Vals o1, o2;
+    enumerate(Dune::IntegralRange<T>(std::pair<T, T>((T)f, (T)t)), o1);
+    enumerate(Dune::range((T)f, (T)t), o2);
+    if (o1 != expect) note(err, "IntegralRange(pair) enumerates " + listStr(o1) + ", expected " + listStr(expect));
+    if (o2 != o1) note(err, "range(from, to) enumerates " + listStr(o2));
+    res.impl = listStr(o1);
   } else return badOp();
   if (!err.empty()) res.oracle = "FAIL " + err;
   return res;
@@ -1123,6 +1423,110 @@ bool withStaticRange(long from, long to, F&& f) {
   return false;
 }
 
+// integer_sequence helpers of integersequence.hh on a catalogue sequence, against the vector twin
+template <class Seq>
+Result seqHelperOp(Seq seq, const Vals& v, const std::string& op, const std::vector<long>& arg) {
+  Result res;
+  std::string err;
+  const long n = (long)v.size();
+  stat("hy_seq_" + op);
+  auto so = [](bool has, long x) { return has ? std::to_string(x) : std::string("none"); };
+  if (op == "get") {
+    if (arg.size() != 1 || arg[0] < 0 || arg[0] >= n) return badOp();
+    long i = arg[0], sv = -99;
+    bool done = withConst<std::size_t, 8>(i, [&](auto ic) {
+      if constexpr (decltype(ic)::value < Seq::size()) sv = (long)decltype(Dune::get<decltype(ic)::value>(seq))::value;
+    });
+    if (!done) return badOp();
+    long dv = (long)Dune::get(seq, (std::size_t)i);
+    if (sv != v[i]) note(err, "get<i>(seq) is " + std::to_string(sv) + ", entry is " + std::to_string(v[i]));
+    if (dv != v[i]) note(err, "get(seq, i) is " + std::to_string(dv));
+    res.impl = sd(std::to_string(sv), std::to_string(dv));
+  } else if (op == "info") {
+    if (!arg.empty()) return badOp();
+    long fr = 0, hd = 0, bk = 0;
+    Vals tl, srt, pf, pb, esrt = v;
+    std::sort(esrt.begin(), esrt.end());
+    if constexpr (Seq::size() > 0) {
+      fr = (long)decltype(Dune::front(seq))::value;
+      hd = (long)decltype(Dune::head(seq))::value;
+      bk = (long)decltype(Dune::back(seq))::value;
+      tl = seqVals(Dune::tail(seq));
+      if (fr != v.front() || hd != v.front()) note(err, "front/head of the sequence is " + std::to_string(fr));
+      if (bk != v.back()) note(err, "back of the sequence is " + std::to_string(bk));
+      if (tl != Vals(v.begin() + 1, v.end())) note(err, "tail of the sequence is " + listStr(tl));
+    }
+    srt = seqVals(Dune::sorted(seq));
+    if (srt != esrt) note(err, "sorted(seq) is " + listStr(srt) + ", std::sort gives " + listStr(esrt));
+    pf = seqVals(Dune::push_front<42>(seq));
+    pb = seqVals(Dune::push_back<43>(seq));
+    Vals epf = v, epb = v;
+    epf.insert(epf.begin(), 42);
+    epb.push_back(43);
+    if (pf != epf) note(err, "push_front gives " + listStr(pf));
+    if (pb != epb) note(err, "push_back gives " + listStr(pb));
+    long sz = (long)decltype(Dune::size(seq))::value;
+    bool em = decltype(Dune::empty(seq))::value;
+    if (sz != n) note(err, "size(seq) is " + std::to_string(sz));
+    if (em != (n == 0)) note(err, "empty(seq) is wrong");
+    res.impl = "front=" + so(n > 0, fr) + " head=" + so(n > 0, hd) + " back=" + so(n > 0, bk) + " size=" + std::to_string(sz) +
+               " empty=" + (em ? "true" : "false") + " tail=" + (n > 0 ? listStr(tl) : std::string("none")) + " sorted=" + listStr(srt) +
+               " pf=" + listStr(pf) + " pb=" + listStr(pb);
+  } else if (op == "contains") {
+    if (arg.size() != 1 || arg[0] < 0 || arg[0] >= 10) return badOp();
+    bool got = false;
+    withConst<int, 10>(arg[0], [&](auto ic) { got = decltype(Dune::contains(seq, ic))::value; });
+    bool expect = std::find(v.begin(), v.end(), arg[0]) != v.end();
+    if (got != expect) note(err, "contains(seq, value) is wrong");
+    res.impl = got ? "true" : "false";
+  } else if (op == "difference" || op == "equal") {
+    if (arg.size() != 1 || arg[0] < 0 || arg[0] >= (long)seqCatalogue().size()) return badOp();
+    const Vals& o = seqCatalogue()[arg[0]];
+    bool ok = withSeq(o, [&](auto other) {
+      if (op == "difference") {
+        Vals got = seqVals(Dune::difference(seq, other)), expect;
+        for (long x : v) if (std::find(o.begin(), o.end(), x) == o.end()) expect.push_back(x);
+        if (got != expect) note(err, "difference is " + listStr(got) + ", expected " + listStr(expect));
+        res.impl = listStr(got);
+      } else {
+        bool got = decltype(Dune::equal(seq, other))::value;
+        if (got != (v == o)) note(err, "equal(seq, other) is wrong");
+        res.impl = got ? "true" : "false";
+      }
+    });
+    if (!ok) return badOp();
+  } else return badOp();
+  if (!err.empty()) res.oracle = "FAIL " + err;
+  return res;
+}
+
+// switchCases without else branch: only defined when the value is among the cases
+template <class Seq>
+Result hybridSwitchSeq3(Seq seq, const Vals& cases, long v) {
+  namespace H = Dune::Hybrid;
+  Result res;
+  std::string err;
+  stat("hy_switchCases3_seq");
+  bool member = std::find(cases.begin(), cases.end(), v) != cases.end();
+  std::string s = "n/a", d = "n/a";
+  if (member) {
+    long r = -5;
+    H::switchCases(seq, (int)v, [&](auto i) { r = 100 + (long)i; });
+    if (r != 100 + v) note(err, "three-argument switchCases with a run-time value gives " + std::to_string(r));
+    d = std::to_string(r);
+    withConst<int, 10>(v, [&](auto ic) {
+      long r2 = -5;
+      H::switchCases(seq, ic, [&](auto i) { r2 = 100 + (long)decltype(i)::value; });
+      if (r2 != 100 + v) note(err, "three-argument switchCases with a compile-time value gives " + std::to_string(r2));
+      s = std::to_string(r2);
+    });
+  }
+  res.impl = sd(s, d);
+  if (!member) res.oracle = "ok trivial";
+  if (!err.empty()) res.oracle = "FAIL " + err;
+  return res;
+}
+
 static Result execHybrid(const std::vector<std::string>& w) {
   namespace H = Dune::Hybrid;
   if (w.size() < 4) return badOp();
@@ -1151,6 +1555,11 @@ static Result execHybrid(const std::vector<std::string>& w) {
     if (op == "switchCases") {
       if (arg.size() != 1 || arg[0] < -1000 || arg[0] > 1000) return badOp();
       ok = withSeq(v, [&](auto seq) { res = hybridSwitchSeq(seq, v, arg[0]); });
+    } else if (op == "switchCases3") {
+      if (arg.size() != 1 || arg[0] < -1000 || arg[0] > 1000) return badOp();
+      ok = withSeq(v, [&](auto seq) { res = hybridSwitchSeq3(seq, v, arg[0]); });
+    } else if (op == "get" || op == "info" || op == "contains" || op == "difference" || op == "equal") {
+      ok = withSeq(v, [&](auto seq) { res = seqHelperOp(seq, v, op, arg); });
     } else
       ok = withSeq(v, [&](auto seq) { res = hybridContainerOp(seq, v, op, arg, true); });
     return ok ? res : badOp();
@@ -1177,6 +1586,30 @@ static Result execHybrid(const std::vector<std::string>& w) {
       if (!err.empty()) res.oracle = "FAIL " + err;
       return res;
     }
+    if (op == "switchCases3") {
+      if (arg.size() != 1 || arg[0] < -1000 || arg[0] > 1000 || f < -1000 || t > 1000 || f > t) return badOp();
+      long v = arg[0];
+      bool member = f <= v && v < t;
+      std::string s = "n/a", d = "n/a";
+      if (member) {
+        long r = -5;
+        H::switchCases(Dune::IntegralRange<int>((int)f, (int)t), (int)v, [&](auto i) { r = 100 + (long)i; });
+        if (r != 100 + v) note(err, "three-argument switchCases over a dynamic range gives " + std::to_string(r));
+        d = std::to_string(r);
+        withStaticRange(f, t, [&](auto fc, auto tc) {
+          auto sr = Dune::StaticIntegralRange<int, (int)decltype(tc)::value, (int)decltype(fc)::value>{};
+          long r2 = -5;
+          H::switchCases(sr, (int)v, [&](auto i) { r2 = 100 + (long)i; });
+          if (r2 != 100 + v) note(err, "three-argument switchCases over a static range gives " + std::to_string(r2));
+          s = std::to_string(r2);
+        });
+      }
+      res.impl = sd(s, d);
+      stat("hy_switchCases3_range");
+      if (!member) res.oracle = "ok trivial";
+      if (!err.empty()) res.oracle = "FAIL " + err;
+      return res;
+    }
     // Hybrid::integralRange(static bounds) vs Hybrid::integralRange(run-time bounds)
     Vals twin;
     for (long x = f; x < t; ++x) twin.push_back(x);
@@ -1189,6 +1622,12 @@ static Result execHybrid(const std::vector<std::string>& w) {
       res = hybridContainerOp(sr, twin, op, arg, true);
       if (dvals != twin && res.oracle.rfind("ok", 0) == 0) res.oracle = "FAIL dynamic integralRange enumerates " + listStr(dvals);
       if ((long)H::size(dr) != t - f && res.oracle.rfind("ok", 0) == 0) res.oracle = "FAIL dynamic integralRange size";
+      if constexpr (decltype(fc)::value == 0) {  // the one-argument forms start at 0
+        Vals s1, d1;
+        H::forEach(H::integralRange(tc), [&](auto&& e) { s1.push_back(asLong(e)); });
+        H::forEach(H::integralRange((std::size_t)t), [&](auto&& e) { d1.push_back(asLong(e)); });
+        if ((s1 != twin || d1 != twin) && res.oracle.rfind("ok", 0) == 0) res.oracle = "FAIL integralRange(end) enumerates " + listStr(s1) + " / " + listStr(d1);
+      }
     });
     return ok ? res : badOp();
   }
@@ -1277,6 +1716,7 @@ bool withKind(const std::string& kindTok, const std::string& spec, F&& f) {
     if (kind == "ir_u32") return go((unsigned)0);
     if (kind == "ir_i64") return go((long)0);
     if (kind == "ir_u64") return go((unsigned long)0);
+    if (kind == "ir_u64h") { IntRangeKind<unsigned long, true> a(fr, to); f(a); return true; }
     if (kind == "trir") {
       if (!TypeLimits<int>::fits(fr, to) || fr < -100000 || to > 100000) return false;
       TransformedIRKind a(fr, to);
@@ -1315,8 +1755,13 @@ bool withKind(const std::string& kindTok, const std::string& spec, F&& f) {
   }
   if (kind == "al3" && needPlus(true)) { ArrayListKind<3> a(v, k); f(a); return true; }
   if (kind == "al100" && needPlus(true)) { ArrayListKind<100> a(v, k); f(a); return true; }
-  if (kind == "sll" && needPlus(false)) { SLListKind<false> a(v); f(a); return true; }
-  if (kind == "sllmod" && needPlus(false)) { SLListKind<true> a(v); f(a); return true; }
+  if (kind == "al3p" && needPlus(true)) { ArrayListKind<3, true> a(v, k); f(a); return true; }
+  if (kind == "sll" && needPlus(false)) { SLListKind<0> a(v); f(a); return true; }
+  if (kind == "sllmod" && needPlus(false)) { SLListKind<1> a(v); f(a); return true; }
+  if (kind == "sllmi" && needPlus(false)) { SLListKind<2> a(v); f(a); return true; }
+  if (kind == "iidv" && needPlus(true)) { IndexedDenseKind a(v, k); f(a); return true; }
+  if (kind == "trfun" && needPlus(false)) { TransformedFunKind a(v); f(a); return true; }
+  if (kind == "nfadv" && needPlus(false)) { AdvOnlyKind a(v); f(a); return true; }
   if (kind == "gira" && needPlus(false)) { GenericKind<RandomAccessIteratorFacade, 2> a(v); f(a); return true; }
   if (kind == "gibi" && needPlus(false)) { GenericKind<BidirectionalIteratorFacade, 1> a(v); f(a); return true; }
   if (kind == "gifw" && needPlus(false)) { GenericKind<ForwardIteratorFacade, 0> a(v); f(a); return true; }
@@ -1370,6 +1815,28 @@ static Result execRange(const std::vector<std::string>& w) {
     if (!err.empty()) res.oracle = "FAIL " + err;
     return res;
   }
+  if (kind == "spdiag") {  // sparseRange over one row of a DiagonalMatrix: the entry paired with the ROW index
+    if (w.size() != 5 || w[3] != "enum" || !isInt(w[4])) return badOp();
+    Vals v;
+    if (!parseVals(w[2], v, 12, 1000000)) return badOp();
+    long row = std::stol(w[4]);
+    if ((v.size() != 2 && v.size() != 3) || row < 0 || row >= (long)v.size()) return badOp();
+    std::vector<std::pair<long, long>> out, outc, expect = {{v[row], row}};
+    std::string err;
+    auto run = [&](auto& d) {
+      for (std::size_t i = 0; i < v.size(); ++i) d.diagonal(i) = v[i];
+      for (auto&& [e, i] : Dune::sparseRange(d[row])) out.push_back({(long)e, (long)i});
+      for (auto&& [e, i] : Dune::sparseRange(std::as_const(d)[row])) outc.push_back({(long)e, (long)i});
+    };
+    if (v.size() == 2) { Dune::DiagonalMatrix<long, 2> d; run(d); }
+    else { Dune::DiagonalMatrix<long, 3> d; run(d); }
+    if (out != expect) note(err, "sparse range over the diagonal row enumerates " + pairList(out) + ", expected " + pairList(expect));
+    if (outc != out) note(err, "const sparse range differs");
+    res.impl = pairList(out);
+    stat("op_rg_spdiag");
+    if (!err.empty()) res.oracle = "FAIL " + err;
+    return res;
+  }
   std::vector<long> arg;
   for (size_t i = 4; i < w.size(); ++i) {
     long x;
@@ -1377,7 +1844,7 @@ static Result execRange(const std::vector<std::string>& w) {
     arg.push_back(x);
   }
   const std::string& op = w[3];
-  if ((op == "contains" || op == "at") ? arg.size() != 1 : !arg.empty()) return badOp();
+  if ((op == "contains" || op == "at" || op == "vat") ? arg.size() != 1 : !arg.empty()) return badOp();
   if (kind.rfind("sir_", 0) == 0) {
     long f, t;
     if (!parseFromTo(w[2], f, t)) return badOp();
@@ -1395,7 +1862,34 @@ static Result execRange(const std::vector<std::string>& w) {
     IR("ir_i8", signed char) IR("ir_u8", unsigned char) IR("ir_i16", short)
     IR("ir_i32", int) IR("ir_u32", unsigned) IR("ir_i64", long) IR("ir_u64", unsigned long)
 #undef IR
+    if (kind == "ir_u64h") return execIntegralRange<unsigned long, true>(op, f, t, arg);
     return badOp();
+  }
+  if (op == "vsize" || op == "vempty" || op == "vat") {  // TransformedRangeView::size(), empty(), operator[]
+    if (kind != "trv") return badOp();
+    Vals v;
+    if (!parseVals(w[2], v, 12, 1000000)) return badOp();
+    std::vector<long> c(v.begin(), v.end()), log;
+    auto view = Dune::transformedRangeView(c, LogF{&log});
+    std::string err;
+    if (op == "vsize") {
+      res.impl = std::to_string(view.size());
+      if ((long)view.size() != (long)v.size() || (long)std::as_const(view).size() != (long)v.size()) note(err, "size() of the view is " + res.impl);
+    } else if (op == "vempty") {
+      res.impl = view.empty() ? "true" : "false";
+      if (view.empty() != v.empty()) note(err, "empty() of the view is " + res.impl);
+    } else {
+      long i = arg.at(0);
+      if (i < 0 || i >= (long)v.size()) return badOp();
+      long got = view[(std::size_t)i], gotc = std::as_const(view)[(std::size_t)i];
+      res.impl = std::to_string(got);
+      if (got != 3 * v[i] + 1 || gotc != got)
+        note(err, "view[i] is " + res.impl + " (const view: " + std::to_string(gotc) + "), f(c[i]) is " + std::to_string(3 * v[i] + 1));
+      if (log != std::vector<long>{v[i], v[i]}) note(err, "view[i] applied f to " + listStr(log));
+    }
+    stat("op_rg_" + op);
+    if (!err.empty()) res.oracle = "FAIL " + err;
+    return res;
   }
   if (op != "enum") return badOp();
   bool ok = withKind(kind, w[2], [&](auto& a) {
@@ -1430,7 +1924,7 @@ static Result exec(const std::string& line) {
   bool ok = withKind(w[1], w[2], [&](auto& a) {
     stat("kind_" + w[1].substr(0, w[1].find('+')));
     Tab T = makeTab(a);
-    res = execIt(T, w, 3);
+    res = (w[3] == "hist") ? execHist(T, w) : execIt(T, w, 3);
   });
   return ok ? res : badOp();
 }
@@ -1446,6 +1940,8 @@ struct KSpec {
   std::vector<int> sizes;      // allowed sizes; empty = 0..8
   bool fromTo;                 // container spec is from:to
   long tmin, tmax;             // value limits for fromTo kinds
+  bool keepsType = true, hasConv = false, hasBeforeEnd = false, hasFind = false;
+  long straddle = 0;           // a value the ranges of a fromTo kind should also straddle (largest signed value of an unsigned type)
 };
 static const std::vector<KSpec>& kinds() {
   const long LMAX = std::numeric_limits<long>::max(), LMIN = std::numeric_limits<long>::min();
@@ -1479,7 +1975,29 @@ static const std::vector<KSpec>& kinds() {
       {"ir_u32", 2, false, true, true, false, -1, {}, true, 0, 4294967295L},
       {"ir_i64", 2, false, true, true, false, -1, {}, true, LMIN, LMAX},
       {"ir_u64", 2, false, true, true, false, -1, {}, true, 0, LMAX},
+      {"ir_u64h", 2, false, true, true, false, -1, {}, true, LMIN, LMAX},
+      {"al3p", 2, false, false, false, false, 7, {}, false, 0, 0},
+      {"sllmi", 0, false, true, false, false, -1, {}, false, 0, 0},
+      {"iidv", 2, false, true, false, true, 9, {}, false, 0, 0},
+      {"trfun", 2, false, true, true, false, -1, {}, false, 0, 0},
+      {"nfadv", 2, false, true, true, false, -1, {}, false, 0, 0},
   };
+  static bool init = false;
+  if (!init) {
+    init = true;
+    auto& kk = const_cast<std::vector<KSpec>&>(k);
+    for (auto& x : kk) {
+      std::string nm = x.name;
+      auto in = [&](std::initializer_list<const char*> l) { for (auto* y : l) if (nm == y) return true; return false; };
+      x.keepsType = !in({"iiv", "iil", "iif", "iidv"});
+      x.hasConv = in({"dynv", "fvec", "dmat", "fmat", "diag", "al3", "al100", "al3p", "sll", "sllmod", "sllmi", "gira", "gibi", "gifw", "owra", "owbi"});
+      x.hasBeforeEnd = in({"dynv", "fvec", "dmat", "fmat", "diag"});
+      x.hasFind = in({"dynv", "fvec"});
+      if (nm == "ir_u32") x.straddle = 2147483647L;   // 2^31 - 1
+      if (nm == "ir_u8") x.straddle = 127;
+      if (nm == "ir_u64h") x.straddle = -1;           // relative to 2^63: the values 2^63-1 | 2^63
+    }
+  }
   return k;
 }
 
@@ -1505,7 +2023,8 @@ static std::string genSpec(Rng& r, const KSpec& k, long& n) {
     long from;
     long span = k.tmax - (k.tmin < 0 ? 0 : 0);
     (void)span;
-    switch (r.below(6)) {
+    switch (r.below(k.straddle != 0 ? 8 : 6)) {
+      case 6: case 7: from = k.straddle - r.range(0, n) + (n > 0 ? 1 : 0); break;  // the range contains straddle and straddle+1
       case 0: from = k.tmin; break;
       case 1: from = k.tmax - n; break;
       case 2: from = (k.tmin < 0) ? -r.range(0, n) : 0; break;  // straddles zero for signed types
@@ -1545,10 +2064,62 @@ static std::string genIt(Rng& r) {
   if (k.cat >= 2)
     for (auto o : {"addeq", "subeq", "plus", "minus", "at", "diff", "lt", "le", "gt", "ge", "lt", "le", "gt", "ge", "diff"}) ops.push_back(o);
   if (k.nplus) ops.push_back("nplus");
+  if (k.hasConv) ops.push_back("conv");
+  if (k.hasBeforeEnd) ops.push_back("beforeend");
+  if (k.hasFind) ops.push_back("find");
+  for (int j = 0; j < 3; ++j) ops.push_back("hist");
   std::string op = r.pick(ops);
   std::string c1 = r.coin() ? "m" : "c";
   std::string c2 = r.coin() ? "m" : "c";
   auto fallback = [&]() { os << "eq " << n << " " << n << " " << c1 << c2; return os.str(); };
+  if (op == "conv") {
+    os << op << " " << pos(lo, n) << " m";
+    return os.str();
+  }
+  if (op == "beforeend") {
+    os << op << " " << n << " " << c1;
+    return os.str();
+  }
+  if (op == "find") {
+    os << op << " " << (r.coin(1, 4) ? n + r.range(0, 4) : pos(0, n)) << " " << c1;
+    return os.str();
+  }
+  if (op == "hist") {
+    long q = pos(lo, n);
+    const long q0 = q;
+    std::ostringstream hs;
+    long len = r.coin(1, 5) ? r.range(9, 24) : r.range(1, 8);
+    for (long j = 0; j < len; ++j) {
+      std::vector<std::string> cand = {"i", "I"};
+      if (k.cat >= 1) { cand.push_back("d"); cand.push_back("D"); }
+      if (k.cat >= 2) {
+        cand.push_back("a"); cand.push_back("s");
+        if (k.keepsType) { cand.push_back("p"); cand.push_back("m"); }
+        if (k.keepsType && k.nplus) cand.push_back("n");
+      }
+      std::string st = r.pick(cand);
+      long t = q;
+      if (st == "i" || st == "I") t = q + 1;
+      else if (st == "d" || st == "D") t = q - 1;
+      else {
+        t = pos(lo, n);  // boundary-biased target
+        long delta = (st == "s" || st == "m") ? q - t : t - q;
+        st += std::to_string(delta);
+      }
+      if (t < lo || t > n) {  // step not possible here: turn around
+        if (t > n && k.cat >= 1) { st = "d"; t = q - 1; }
+        else if (t < lo) { st = "i"; t = q + 1; }
+        else break;
+        if (t < lo || t > n) break;
+      }
+      if (!hs.str().empty()) hs << ";";
+      hs << st;
+      q = t;
+    }
+    if (hs.str().empty()) return fallback();
+    os << op << " " << q0 << " " << c1 << " : " << hs.str();
+    return os.str();
+  }
   if (op == "preinc" || op == "postinc" || op == "incdec") {
     long p = pos(lo, n - 1);
     if (p == NOPOS) return fallback();
@@ -1600,8 +2171,10 @@ static std::string genRange(Rng& r) {
     std::string spec = genSpec(r, k, n);
     long f, t;
     parseFromTo(spec, f, t);
-    std::string op = r.pick(std::vector<std::string>{"size", "empty", "enum", "enum", "contains", "at"});
+    std::string op = r.pick(std::vector<std::string>{"size", "empty", "enum", "enum", "contains", "at", "enum_to", "enum_pair"});
     if (op == "at" && n == 0) op = "size";
+    if (std::string(k.name) == "ir_u64h" && (op == "enum_to" || op == "enum_pair")) op = "enum";
+    if (op == "enum_to") { spec = "0:" + std::to_string(n); f = 0; t = n; }
     os << "rg " << k.name << " " << spec << " " << op;
     if (op == "contains") {
       long x;
@@ -1634,6 +2207,19 @@ static std::string genRange(Rng& r) {
       os << " " << x;
     }
     if (op == "at") os << " " << r.range(0, s.t - s.f - 1);
+    return os.str();
+  }
+  if (w == 5 && r.coin(1, 3)) {  // TransformedRangeView members / sparse range over a diagonal row
+    if (r.coin()) {
+      long n = r.range(0, 6);
+      std::string op = r.pick(std::vector<std::string>{"vsize", "vempty", "vat"});
+      if (op == "vat" && n == 0) op = "vempty";
+      os << "rg trv " << genVals(r, n, 50) << " " << op;
+      if (op == "vat") os << " " << r.range(0, n - 1);
+    } else {
+      long n = r.range(2, 3);
+      os << "rg spdiag " << genVals(r, n, 50) << " enum " << r.range(0, n - 1);
+    }
     return os.str();
   }
   if (w == 5) {  // IteratorRange
@@ -1681,10 +2267,20 @@ static std::string genHybrid(Rng& r) {
     if (op == "accumulate") os << " " << r.range(-5, 5);
     return os.str();
   }
+  if (w == 5 && r.coin()) {  // integer_sequence helpers
+    const Vals& v = r.pick(seqCatalogue());
+    std::string op = r.pick(std::vector<std::string>{"get", "info", "contains", "difference", "equal"});
+    if (op == "get" && v.empty()) op = "info";
+    os << "hy iseq " << listStr(v) << " " << op;
+    if (op == "get") os << " " << r.range(0, (long)v.size() - 1);
+    if (op == "contains") os << " " << ((!v.empty() && r.coin() && v[0] >= 0 && v[0] < 10) ? v[0] : r.range(0, 9));
+    if (op == "difference" || op == "equal") os << " " << r.below(seqCatalogue().size());
+    return os.str();
+  }
   if (w == 5) {
     const Vals& v = r.pick(seqCatalogue());
     long x = (!v.empty() && r.coin(2, 3)) ? v[r.below(v.size())] : r.range(-3, 11);
-    os << "hy iseq " << listStr(v) << " switchCases " << x;
+    os << "hy iseq " << listStr(v) << " " << (r.coin(1, 3) ? "switchCases3" : "switchCases") << " " << x;
     return os.str();
   }
   if (w == 6) {
@@ -1698,7 +2294,7 @@ static std::string genHybrid(Rng& r) {
       case 2: x = t - 1; break;
       default: x = r.range(f - 2, t + 2); break;
     }
-    os << "hy irange " << f << ":" << t << " switchCases " << x;
+    os << "hy irange " << f << ":" << t << " " << (r.coin(1, 3) ? "switchCases3" : "switchCases") << " " << x;
     return os.str();
   }
   if (w == 7) {
